@@ -44,8 +44,10 @@ fn c_a() {
     assert!(a(x) == bcref::aria::a(x));
 }
 // A is an involution and GF(2)-linear (both used by the decryption key schedule dk_i = A(ek_j)); stated on the real code.
-// @ob name=l_a_involution props=C01 kind=lemma fn=aria::utils::a uses=c_diffuse timeout=300
+// (z3 0.8 s, CaDiCaL 120 s: XOR cancellation)
+// @ob name=l_a_involution props=C01 kind=lemma fn=aria::utils::a uses=c_diffuse solver=z3 timeout=300
 #[kani::proof]
+#[kani::solver(z3)]
 #[kani::stub(diffuse, spec_diffuse)]
 #[kani::unwind(18)]
 fn l_a_involution() {
